@@ -149,6 +149,15 @@ class Scenario(apiworld.ApiWorld):
                 await self.at.shutdown()
                 self.shutdown_state = "returned"
                 self.shutdown_mark = (L.time(), len(self.net.log), len(self.conn_events))
+                if self.p.get("prompt_reinit") == "before-settle":
+                    # the application does `await at.shutdown(); await at.init()`: nothing runs in between
+                    self._switch_console()
+                    self.reinit_started = True
+                    try:
+                        r = await self.at.init()
+                        self.init_result.append(("returned", r, L.time()))
+                    except Exception as e:  # noqa: BLE001
+                        self.init_result.append(("raised", type(e).__name__, L.time()))
             self.sd_task = self.spawn(drv())
         else:
             raise explorer.HarnessError(f"unknown action {a!r}")
@@ -183,7 +192,7 @@ class Scenario(apiworld.ApiWorld):
     def fp_extra(self):
         return (worlds.net_state(self.net), self.shutdown_state, tuple(sorted(self.n.items())), self.pos,
                 len(self.console.outbox), tuple(k for (_c, _d, k) in self.console.outbox),
-                tuple(c["status"] for c in self.calls), tuple(self.init_result))
+                tuple(c["status"] for c in self.calls), tuple(self.init_result), getattr(self, "reinit_started", False))
 
     def outcome(self):
         return repr((self.shutdown_state, self.init_result, len(self.net.conns),
@@ -217,16 +226,10 @@ class Scenario(apiworld.ApiWorld):
         # let shutdown() itself finish (the network stays as it is: pending connects stay pending)
         t_stop = L.time() + 10.0
         if self.p.get("prompt_reinit") == "before-settle":
-            # turn by turn, so that the very iteration in which shutdown() returns is not run past
-            n = 0
-            while self.shutdown_state != "returned" and L.has_ready() and n < 10000:
-                L.turn()
-                chk()
-                n += 1
-            if bad:
-                return bad[0]
-            if self.shutdown_state == "returned":
-                return self._reinit_oracle(prompt=True)
+            L.settle()
+            if getattr(self, "reinit_started", False):
+                return self._reinit_oracle(prompt=True, started=True)
+            return self._v("shutdown-returns", "shutdown() did not return (same-iteration re-init never started)") if self.shutdown_state != "returned" else None
         L.settle()
         chk()
         if self.shutdown_state != "returned":
@@ -243,10 +246,6 @@ class Scenario(apiworld.ApiWorld):
             return bad[0]
         if self.shutdown_state != "returned":
             return self._v("shutdown-returns", "shutdown() did not return within 10 s of virtual time")
-        if self.p.get("prompt_reinit") == "before-settle":
-            # init() again in the very loop iteration in which shutdown() returned: handlers of the old session that
-            # are still suspended resume inside the new one
-            return self._reinit_oracle(prompt=True)
         # the moment shutdown() has returned (callbacks already queued may run, the clock does not move):
         # no timer and no task of the client is left
         L.settle()
@@ -308,19 +307,24 @@ class Scenario(apiworld.ApiWorld):
         self.unretrieved = len(self.loop_reports())
         return None
 
-    def _reinit_oracle(self, prompt):
-        L = self.loop
+    def _switch_console(self):
         self.net.auto = "accept"
         self.console.auto = True
         self.net.resolve_all(True)
+        new = _other_installation(self.gen)
+        self.console.inst = new
+        self.console.state = console.default_state(new)
+        self.shutdown_mark = None
+        self.reinit_n0 = len(self.console.requests)
+        self.init_result.clear()
+
+    def _reinit_oracle(self, prompt, started=False):
+        L = self.loop
         if True:
-            new = _other_installation(self.gen)
-            self.console.inst = new
-            self.console.state = console.default_state(new)
-            self.shutdown_mark = None
-            n0 = len(self.console.requests)
-            self.init_result.clear()
-            self.init_task = self.start_init()
+            if not started:
+                self._switch_console()
+                self.init_task = self.start_init()
+            n0 = self.reinit_n0
             L.run_until(L.time() + 6.0)
             if not self.init_result or self.init_result[-1][:2] != ("returned", True):
                 return self._v("reinit-works", f"init() after shutdown(): {self.init_result}")
